@@ -27,7 +27,8 @@ type Packet struct {
 
 // Source is a scripted capture source for one interface.
 type Source struct {
-	Iface string
+	failErr error // pending scripted capture error (see Fail)
+	Iface   string
 
 	mu          sync.Mutex
 	cond        *sync.Cond
@@ -144,6 +145,15 @@ func (s *Source) WaitIdleUntil(d time.Duration, stop func() bool) bool {
 	}
 }
 
+// Fail makes every further packet fetch return err (a capture error: goProbe's processing loop reports
+// it and ends, after which the manager tears the interface down).
+func (s *Source) Fail(err error) {
+	s.mu.Lock()
+	s.failErr = err
+	s.cond.Broadcast()
+	s.mu.Unlock()
+}
+
 // Pending returns the number of queued, not yet delivered packets.
 func (s *Source) Pending() int {
 	s.mu.Lock()
@@ -179,6 +189,11 @@ func (s *Source) NextIPPacketZeroCopy() (capture.IPLayer, capture.PacketType, ui
 	for {
 		if s.closed {
 			return nil, 0, 0, capture.ErrCaptureStopped
+		}
+		if s.failErr != nil {
+			// sticky, like a broken device: every fetch fails until the source is closed (a one-shot
+			// error that happens to be fetched inside a pause is reported but does not end the capture)
+			return nil, 0, 0, s.failErr
 		}
 		if s.unblockPend && !(s.queueFirst && len(s.queue) > 0) {
 			s.unblockPend = false
